@@ -317,6 +317,9 @@ class SymBool:
     def __hash__(s):
         return 0
 
+    def __deepcopy__(s, memo):
+        return s
+
     def __repr__(s):
         return f"SB({s.t})"
 
@@ -667,6 +670,12 @@ class SymReal:
 
     def __hash__(s):
         return 0
+
+    def __deepcopy__(s, memo):
+        return s          # immutable
+
+    def __copy__(s):
+        return s
 
     def __float__(s):
         if s.is_const():
